@@ -1,6 +1,6 @@
 """Run every translator against /repo's current working tree (writes lean/MypyVerif/Gen/*.lean)."""
 import importlib, sys
-TRANSLATORS: list[str] = ["options", "optreads", "reach_tables", "c12fold", "c12bind", "codec_consts", "schemas", "globals_scan", "cfast", "irops", "errorcodes", "exitrule", "c06_micro", "driver_caps", "c18consts", "loadcfg", "c19cfg"]
+TRANSLATORS: list[str] = ["options", "optreads", "reach_tables", "c12fold", "c12bind", "codec_consts", "schemas", "globals_scan", "cfast", "irops", "errorcodes", "exitrule", "c06_micro", "driver_caps", "c18consts", "loadcfg", "plugcfg", "c19cfg"]
 def main() -> int:
     for name in TRANSLATORS:
         importlib.import_module(f"translate.{name}").main()
